@@ -261,11 +261,13 @@ func collectTVarFTypeWithSet(visited SSet, ft FType) []string {
 			return frt.Pipe(ut.Targs, (func(_r0 []FType) []string { return slice.Collect(recurse, _r0) }))
 		}), (func() []string {
 			SSetPut(visited, uname)
-			return frt.Pipe(frt.Pipe(utCases(ut), (func(_r0 []NameTypePair) []FType {
+			cres := frt.Pipe(frt.Pipe(utCases(ut), (func(_r0 []NameTypePair) []FType {
 				return slice.Map(func(_v2 NameTypePair) FType {
 					return _v2.Ftype
 				}, _r0)
 			})), (func(_r0 []FType) []string { return slice.Collect(recurse, _r0) }))
+			tres := frt.Pipe(ut.Targs, (func(_r0 []FType) []string { return slice.Collect(recurse, _r0) }))
+			return slice.Append(cres, tres)
 		}))
 	case FType_FFunc:
 		fnt := _v9.Value
